@@ -137,7 +137,9 @@ def tt_mprod(E, s):
     if s.get('single'):
         z = x.mprod(mats[0], modes[0])
     else:
-        z = x.mprod(mats, modes)
+        m_arg, f_arg = list(modes), list(mats)
+        z = x.mprod(f_arg, m_arg)
+        E.true('arguments_intact', m_arg == list(modes) and len(f_arg) == len(mats) and all(a is b for a, b in zip(f_arg, mats)))
     ref = dense(E, xc)
     d = len(s['N'])
     for F, m in zip(mats, modes):
